@@ -283,6 +283,32 @@ def unnamed_bf_types(decl):
     return bad
 
 
+def long_double_types(decl):
+    """names of the declared types that contain a long double member, directly or through a member type (16-byte aligned aggregates)"""
+    bad = set()
+    decls = {}
+    for d in decl:
+        m = re.match(r"((?:struct|union) T\d+) \{(.*)\};$", d)
+        if m:
+            decls[m.group(1)] = m.group(2)
+    changed = True
+    while changed:
+        changed = False
+        for tn, body in decls.items():
+            if tn not in bad and ("long double" in body or any(re.search(re.escape(b) + r"\b", body) for b in bad)):
+                bad.add(tn)
+                changed = True
+    return bad
+
+
+def type_feature(tn, decl):
+    if tn in long_double_types(decl):
+        return "type-with-long-double-member"
+    if tn in unnamed_bf_types(decl):
+        return "type-with-unnamed-bit-field"
+    return "plain"
+
+
 def run_cmd(cmd, env=None, timeout=120):
     try:
         r = subprocess.run(cmd, stdout=subprocess.PIPE, stderr=subprocess.PIPE, text=True, errors="replace", timeout=timeout, env=env)
@@ -299,6 +325,29 @@ def first_diff(a, b):
         if x != y:
             return x, y
     return None, None
+
+
+def refs_disagree(d, ep, mp, ref, env):
+    """True when gcc and clang themselves do not agree on how this program's aggregates are passed (a gcc-compiled and a
+    clang-compiled side exchanged the values differently from gcc/gcc): the platform ABI is then not a single answer for
+    these types (known for unions holding unnamed bit-fields and eightbytes holding only unnamed bit-fields) and the case
+    cannot convict c2mir."""
+    dc = os.path.join(d, "clang")
+    os.makedirs(dc, exist_ok=True)
+    try:
+        rc, _, _ = run_cmd(["clang", "-std=c11", "-w", "-shared", "-fPIC", ep, "-o", os.path.join(dc, "libvpext.so")])
+        if rc != 0:
+            return False
+        rc, out, _ = run_cmd([os.path.join(d, "main_ref")], env=dict(env, LD_LIBRARY_PATH=dc))
+        if rc != 0 or out != ref:
+            return True
+        rc, _, _ = run_cmd(["clang", "-std=c11", "-w", mp, "-L" + d, "-lvpext", "-o", os.path.join(dc, "main_clang")])
+        if rc != 0:
+            return False
+        rc, out, _ = run_cmd([os.path.join(dc, "main_clang")], env=env)
+        return rc != 0 or out != ref
+    except Exception:
+        return False
 
 
 def one_case(args):
@@ -332,7 +381,7 @@ def one_case(args):
                 x, y = first_diff(out, ref)
                 what = "bit-field-placement" if ":" in (x or "") and "off" not in (x or "") and "size" not in (x or "") else "size-or-alignment" if " size " in (x or "") and " off " not in (x or "") else "member-offset"
                 tm = re.match(r"((?:struct|union) T\d+)", x or y or "")
-                feat = "type-with-unnamed-bit-field" if tm and tm.group(1) in unnamed_bf_types(decl) else "plain"
+                feat = type_feature(tm.group(1), decl) if tm else "plain"
                 results.append(("viol", "layout-differs:%s:%s" % (what, feat), shape, "case %d %s (seed %d):\n c2m: %s\n gcc: %s\n--- source\n%s" % (idx, eng, seed, x, y, src)))
                 break
         else:
@@ -355,8 +404,11 @@ def one_case(args):
                     if rc != 0:
                         summ = common.san_summary(err)
                         used = set(re.findall(r"((?:struct|union) T\d+) ext_f\d+ \(", ext))
-                        feat = "type-with-unnamed-bit-field" if used & unnamed_bf_types(decl) else "plain"
+                        feat = ("type-with-long-double-member" if used & long_double_types(decl) else "type-with-unnamed-bit-field" if used & unnamed_bf_types(decl) else "plain")
                         kind = "c2m-crash-in-passing-program:%s:%s" % (summ or common._sig_name(rc), feat)
+                        if refs_disagree(d, ep, mp, ref, env):
+                            results.append(("discard", "reference-compilers-disagree-on-passing", shape, ""))
+                            break
                         results.append(("viol", kind, shape, "case %d %s exit %d\n%s\n--- main.c\n%s\n--- ext.c\n%s" % (idx, eng, rc, err[-1200:], mainc, ext)))
                         break
                     if out != ref:
@@ -367,7 +419,10 @@ def one_case(args):
                         if fm:
                             tmm = re.search(r"((?:struct|union) T\d+) ext_f%s \(" % fm.group(1), ext)
                             ftype = tmm.group(1) if tmm else None
-                        feat = "type-with-unnamed-bit-field" if ftype in unnamed_bf_types(decl) else "plain"
+                        feat = type_feature(ftype, decl)
+                        if refs_disagree(d, ep, mp, ref, env):
+                            results.append(("discard", "reference-compilers-disagree-on-passing", shape, ""))
+                            break
                         results.append(("viol", "by-value-passing-differs:%s:%s:%s" % (eng.strip("-"), side, feat), shape,
                                         "case %d %s (seed %d):\n c2m side: %s\n gcc only: %s\n--- main.c\n%s\n--- ext.c\n%s" % (idx, eng, seed, x, y, mainc, ext)))
                         break
